@@ -63,10 +63,17 @@ def judge(case, c2mod, ctx=None):
         steps = _to_lib_steps(prog)
         snapshot = list(steps)
         try:
-            t = c2mod.HttpDataTransform(steps)
+            if case.get("reversed_ctor"):
+                # the same program handed over in recover order
+                steps = steps[::-1]
+                snapshot = list(steps)
+                t = c2mod.HttpDataTransform(steps, reverse=True)
+            else:
+                t = c2mod.HttpDataTransform(steps)
         except Exception as e:  # noqa: BLE001
             return "construct.exception", f"{type(e).__name__}: {e}"
-        c2data = c2mod.C2Data(**payload)
+        # a field that is not set at all (C2Data's default None) is an empty payload
+        c2data = c2mod.C2Data(**{n: v for n, v in payload.items() if n not in case.get("unset", ())})
         ref_prog = prog
         base_uri = req["uri"]
     elif form == "implicit":
@@ -217,7 +224,8 @@ def check_case(case, ctx):
         f"form:{case['form']}", f"blocks:{sum(1 for s in prog if s[0] == 'BUILD') or 1}", f"enc:{min(nenc, 6)}",
         *(f"term:{t}" for t in terms), *(f"op:{s[0].upper()}" for s in prog if s[0].upper() in codec.ENCODERS + codec.STATIC),
         "emptyarg" if any(s[0].upper() in ("APPEND", "PREPEND") and s[1] in (b"", 0) for s in prog) else "noemptyarg",
-        "req:populated" if case["req"]["uri"] else "req:default" if case.get("default_request") else "req:empty"))
+        "req:populated" if case["req"]["uri"] else "req:default" if case.get("default_request") else "req:empty",
+        "ctor:reverse" if case.get("reversed_ctor") else "ctor:plain", f"unset:{len(case.get('unset', ()))}"))
 
 
 # ---- generators -----------------------------------------------------------------------------------------
@@ -318,6 +326,12 @@ def run_shard(shard, ctx):
             prog = gen_client_prog(rng, kinds)
             case = {"form": "client", "prog": prog, "c2": {k: gen_payload(rng, prog) for k in kinds}, "req": gen_req(rng, "client"), "seed": rng.getrandbits(32)}
             case["default_request"] = case["req"] == EMPTY_REQ and rng.random() < 0.6
+            if rng.random() < 0.15:
+                case["reversed_ctor"] = True
+            if rng.random() < 0.15:
+                case["unset"] = [k for k in kinds if rng.random() < 0.5]
+                for k in case["unset"]:
+                    case["c2"][k] = b""
         else:
             req = gen_req(rng, "server")
             sprog = gen_server_prog(rng)
